@@ -597,3 +597,12 @@ func CallInput(ci ssa.CallInstruction, callee *ssa.Function, name string) ssa.Va
 	}
 	return nil
 }
+
+// FieldOfStruct: the field an ssa.Field instruction extracts.
+func FieldOfStruct(f *ssa.Field) *types.Var {
+	t := f.X.Type()
+	if st, ok := t.Underlying().(*types.Struct); ok && f.Field < st.NumFields() {
+		return st.Field(f.Field)
+	}
+	return nil
+}
